@@ -27,8 +27,7 @@ abbrev P := StateT PSt (Except PErr)
 /-- `maxDepth` = marshal.c's MAX_MARSHAL_STACK_DEPTH (2000).  `strict` adds the well-formedness
     guards of the simulation theorem — conditions every stream written by a CPython satisfies
     and under which marshal.c's own later checks (PyCode_New / _PyCode_Validate / intern_strings)
-    accept the code object: the ASCII type codes hold bytes < 0x80; before 3.11 `co_varnames` is a
-    tuple of text; from 3.11 the locals-plus names are a tuple, their kinds a bytes object, and
+    accept the code object: the ASCII type codes hold bytes < 0x80; from 3.11 the locals-plus names are a tuple, their kinds a bytes object, and
     a FREE kind is neither LOCAL nor CELL; and (the ghost flag `txt`, set only while the
     `co_varnames` of Python 3 bytecode is read) no 's' bytes object occurs inside `co_varnames`.  `loads` (used for validation against the
     interpreters) runs with `strict := false`. -/
@@ -77,6 +76,16 @@ def isStrV : V → Bool
   | _ => false
 
 def kindOK (x : Nat) : Bool := x &&& 0x80 = 0 || (x &&& 0x20 = 0 && x &&& 0x40 = 0)
+
+/-! the integer fields of a code object: 16-bit before 2.3, 32-bit from 2.3; which exist when -/
+def intF (ver : List Nat) : P Int := if verGeL ver 2 3 then i32 else i16
+def argcountF (ver : List Nat) : P Int := if verGeL ver 1 3 then intF ver else pure 0
+def posonlyF (ver : List Nat) : P V := if verGeL ver 3 8 then (do let x ← i32; pure (.int x)) else pure .none
+def kwonlyF (ver : List Nat) : P Int := if verGeL ver 3 0 then i32 else pure 0
+def nlocalsF (ver : List Nat) : P Int := if verGeL ver 3 11 then pure 0 else if verGeL ver 1 3 then intF ver else pure 0
+def stacksizeF (ver : List Nat) : P Int := if verGeL ver 1 5 then intF ver else pure 0
+def flagsF (ver : List Nat) : P Int := if verGeL ver 1 3 then intF ver else pure 0
+def firstF (ver : List Nat) : P Int := if verGeL ver 1 5 then intF ver else pure (-1)
 
 mutual
 def rObj (sc : SCfg) (e : Nat) (ver : List Nat) : Nat → Nat → Bool → P (Option V)      -- none = NULL
@@ -226,13 +235,12 @@ def code (sc : SCfg) (e : Nat) (ver : List Nat) : Nat → Nat → Bool → P V
   | fuel + 1, depth, flag => do
     let slot ← reserve flag
     let ge := verGeL ver
-    let int_ : P Int := if ge 2 3 then i32 else i16
-    let argcount ← if ge 1 3 then int_ else pure 0
-    let posonly : V ← if ge 3 8 then do let x ← i32; pure (.int x) else pure .none
-    let kwonly ← if ge 3 0 then i32 else pure 0
-    let nlocals ← if ge 3 11 then pure 0 else if ge 1 3 then int_ else pure 0
-    let stacksize ← if ge 1 5 then int_ else pure 0
-    let flags ← if ge 1 3 then int_ else pure 0
+    let argcount ← argcountF ver
+    let posonly ← posonlyF ver
+    let kwonly ← kwonlyF ver
+    let nlocals ← nlocalsF ver
+    let stacksize ← stacksizeF ver
+    let flags ← flagsF ver
     let co ← obj sc e ver fuel depth false
     let consts ← obj sc e ver fuel depth false
     let names ← obj sc e ver fuel depth false
@@ -260,14 +268,13 @@ def code (sc : SCfg) (e : Nat) (ver : List Nat) : Nat → Nat → Bool → P V
         ("co_cellvars", .tuple cs), ("co_filename", filename), ("co_name", name), ("co_qualname", qualname),
         ("co_firstlineno", .int first), ("co_linetable", lt), ("co_exceptiontable", et)]) slot
     else do
-      let varnames ← if ge 1 3 then obj sc e ver fuel depth (ge 3 0) else pure (.tuple [])
-      if sc.strict && ge 3 0 && !(match varnames with | .tuple xs => xs.all isStrV | _ => false) then throw .badData else do
-      let (freevars, cellvars) ← if ge 2 1 then do
-          let f ← obj sc e ver fuel depth false; let cl ← obj sc e ver fuel depth false; pure (f, cl) else pure (V.tuple [], V.tuple [])
+      let varnames ← (if ge 1 3 then obj sc e ver fuel depth (ge 3 0) else pure (.tuple []))
+      let freevars ← (if ge 2 1 then obj sc e ver fuel depth false else pure (V.tuple []))
+      let cellvars ← (if ge 2 1 then obj sc e ver fuel depth false else pure (V.tuple []))
       let filename ← obj sc e ver fuel depth false
       let name ← obj sc e ver fuel depth false
-      let (first, lt) ← if ge 1 5 then do
-          let fl ← int_; let l ← obj sc e ver fuel depth false; pure (fl, l) else pure ((-1 : Int), V.bytes [])
+      let first ← firstF ver
+      let lt ← (if ge 1 5 then obj sc e ver fuel depth false else pure (V.bytes []))
       insert (.code [("co_argcount", .int argcount), ("co_posonlyargcount", posonly), ("co_kwonlyargcount", .int kwonly),
         ("co_nlocals", .int nlocals), ("co_stacksize", .int stacksize), ("co_flags", .int flags), ("co_code", co),
         ("co_consts", consts), ("co_names", names), ("co_varnames", varnames), ("co_freevars", freevars),
@@ -276,10 +283,16 @@ def code (sc : SCfg) (e : Nat) (ver : List Nat) : Nat → Nat → Bool → P V
 end
 
 /-- marshal.loads for the given producing version: value and unread remainder -/
-def loads (ver : List Nat) (data : Bytes) : Except PErr (V × Bytes) :=
-  match (obj cpython (era ver) ver (2 * data.length + 4) 0 false).run { inp := data, refs := [], strs := [] } with
+def loadsWith (sc : SCfg) (ver : List Nat) (data : Bytes) : Except PErr (V × Bytes) :=
+  match (obj sc (era ver) ver (2 * data.length + 4) 0 false).run { inp := data, refs := [], strs := [] } with
   | .ok (v, s) => .ok (v, s.inp)
   | .error e => .error e
+
+def loads (ver : List Nat) (data : Bytes) : Except PErr (V × Bytes) := loadsWith cpython ver data
+
+/-- the same reader with the well-formedness guards of the simulation theorem switched on -/
+def loadsStrict (ver : List Nat) (data : Bytes) : Except PErr (V × Bytes) :=
+  loadsWith { strict := true, maxDepth := 2000 } ver data
 
 /- `portB bfs`: what a Python 3 host holding xdis's result should contain for a value a Python 2
    wrote: a Python 2 `str` (here `.bytes`) becomes text when it is valid UTF-8 and `bfs` is false
